@@ -112,8 +112,7 @@ Fixpoint np_rules_conns (npns : string) (rules : list np_rule) (other dst : peer
       do sel <- np_rule_selects npns (nr_peers r) other;
       if negb sel then np_rules_conns npns t other dst res
       else do rc <- np_rule_conns (nr_ports r) dst;
-           let res' := cs_union res rc in
-           if cs_all res' then Ok res' else np_rules_conns npns t other dst res'
+           np_rules_conns npns t other dst (cs_union res rc)
   end.
 
 Definition np_dir_conns (np : netpol) (src dst : peer) (ingress : bool) : outcome connset :=
